@@ -47,7 +47,7 @@ type bkmEngine struct{}
 func init() { engines["bkm"] = bkmEngine{} }
 
 var bkmNames = []string{"", "work", "@work", "Work", "privat", "@ünï", "my project", "@a b", "q\"uote", "it's", "@default", "default", "z", "@Z", "読む", "x-1_y"}
-var bkmFiles = []string{"w.klg", "x.klg", "sub dir/ü file.klg", "q'uo\"te.klg", "bad.klg", "new1.klg", "new 2.klg", "nodir/n.klg", "empty.klg"}
+var bkmFiles = []string{"w.klg", "x.klg", "sub dir/w.klg", "other/x.klg", "sub dir/ü file.klg", "q'uo\"te.klg", "bad.klg", "new1.klg", "new 2.klg", "nodir/n.klg", "empty.klg"}
 
 func normName(typed string) string {
 	n := strings.TrimPrefix(typed, "@")
@@ -61,7 +61,7 @@ func (bkmEngine) generate(property string, seed int64, index int, tier string) *
 	r := newRng(seed, "bkm", property, fmt.Sprint(index))
 	today := time.Date(2024, 5, 17, 10, 0, 0, 0, time.UTC)
 	bc := &BkmCase{Files: map[string]string{}, NoCfgDir: r.Chance(1, 3), BaseUnix: today.Unix()}
-	for _, f := range []string{"w.klg", "x.klg", "sub dir/ü file.klg", "q'uo\"te.klg"} {
+	for _, f := range []string{"w.klg", "x.klg", "sub dir/w.klg", "other/x.klg", "sub dir/ü file.klg", "q'uo\"te.klg"} {
 		d := genDoc(r, docOpts{today: today, maxRecords: 2})
 		bc.Files[f] = d.render()
 	}
